@@ -40,8 +40,8 @@ META: Dict[str, Any] = {
     "sim_time_note": "frame timestamps (0.5 ms per frame); odxtools has no timers",
     "components": c12.META["components"],
     "assumptions": c12.META["assumptions"] + [
-        "candump text formats cannot express empty frames; the text entry point is judged on the "
-        "stream without them",
+        "empty frames are rendered into the text logs the way candump prints them ('can0  7E0   [0]', '7E0#'); "
+        "the reader does not recognise such lines and skips them with a warning",
     ],
 }
 
